@@ -13,7 +13,7 @@ TEXT = {
  "C04": ("exploration", "Lex.tla recognisers written from the GFA grammars; TLC enumerates all short strings over per-datatype alphabets, single-point mutations of valid strings, line-level arity/tag combinations and document-level rule violations; every case is offered to gfapy at validation levels 1-3 and TLC (TraceLex) compares acceptance with the grammar verdict. Bounded language equality, not a proof.", "5 C04"),
  "C06": ("exploration", "Convert.tla pure functions with round-trip laws checked by TLC; every enumerated L/C/E/P/O case (all orientations, asymmetric CIGARs, offsets, self-links, paths) converted by gfapy at line and graph level and compared by TLC with the specification; output must load at vlevel 3.", "5 C06"),
  "C07": ("exploration", "The result class of every call of the lexical enumerations (all short texts, single-point mutations of valid lines/documents, string-taking API) is validated by TLC: FOREIGN (not derived from gfapy.Error, or watchdog timeout) is in no allowed outcome.", "5 C07"),
- "C10": ("model_checking", "Step(query) leaves the document unchanged; in every state reached by TLC-enumerated and random histories 13 query groups are run twice: the digest of the complete observation must be unchanged and answers repeatable.", "5 C10"),
+ "C10": ("model_checking", "Step(query) leaves the document unchanged; in every state reached by TLC-enumerated and random histories 15 query groups (incl. edits of clones and of converted copies) are run twice: the digest of the complete observation must be unchanged and answers repeatable.", "5 C10"),
  "C11": ("model_checking", "EdgeClass.tla (independent reading of the GFA2 text) enumerated exhaustively for all 400 cells of a length-3 segment; symmetry laws checked by TLC; every cell loaded into gfapy in three arrival orders (+ rename, unrelated removal) and the back-reference collections, neighbour lists and edge types compared by TLC.", "5 C11"),
  "C12": ("model_checking", "CIGAR algebra laws (involution, length exchange) checked by TLC over all 2955 CIGARs; complement(), equivalence tests and lengths of the real Link compared by TLC (TraceLink) for every CIGAR x 8 endpoint shapes; history level: complement of a stored link is a no-op, path flags in every arrival order.", "5 C12"),
  "C13": ("model_checking", "MC_Version: operational version machine of Gfa.tla = declarative verdict of Version.tla for every order of every set of <= D line kinds (TLC invariant Agrees); every order replayed incrementally and through Gfa(list|str)/from_file.", "5 C13"),
